@@ -64,6 +64,13 @@ def _num(x):
     return x
 
 
+def mod_conditioning(x, r):
+    """x % y inherits the ABSOLUTE rounding error of x (and |x/y| times that of y): a remainder that is tiny next to x carries no
+    significant digits at the comparison tolerance (7e9 % 1.26: one ulp of the left operand moves the result by 2e-6)."""
+    if abs(x) * 1e-13 > 1e-10 + 1e-9 * abs(r):
+        raise IllConditioned("remainder tiny next to the dividend")
+
+
 def ev(a, env):
     k = a[0]
     if k == "num":
@@ -84,6 +91,7 @@ def ev(a, env):
                 # discontinuous where x/y is an integer
                 q = x / y
                 env.cond((q - round(q)) * y, max(abs(x), abs(y)))
+                mod_conditioning(x, r)
                 return _num(r)
             if op == "**":
                 if x == 0 and y < 0:
